@@ -190,20 +190,22 @@ theorem preserved_int2 (truthy : α → Bool) (c : CallShape α) (hu : userShape
     have := accepts_pos_le h rfl
     simp [nPos, posParams, isPos] at this
 
-/-! ### enumerate(iterable, start=0) — the pinned overload names the first parameter `s`, so the
-keyword `iterable` is not accepted: hypothesis `hk`. -/
+/-! ### enumerate(iterable, start=0): both parameters positionally or by keyword, in either order -/
 
 theorem preserved_enumerate (truthy : α → Bool) (c : CallShape α)
-    (hk : hasKey "iterable" c.kw = false)
     (h : accepts [⟨"iterable", .posOrKw, none⟩, ⟨"start", .posOrKw, some "0"⟩] c = true) :
     Preserved truthy "enumerate" [⟨"iterable", .posOrKw, none⟩, ⟨"start", .posOrKw, some "0"⟩] c := by
   obtain ⟨pos, kw⟩ := c
   have hn := (accepts_parts h).2.1
   match pos, h with
   | [], h =>
-    have := (accepts_parts h).2.2.2 ⟨"iterable", .posOrKw, none⟩ (List.mem_cons_self ..)
-    simp only at hk
-    simp [satisfied, filled, isPos, isKw, posFilled, slotOf, posParams, hk] at this
+    have hkeys : ∀ kv ∈ kw, kv.1 ∈ ["iterable", "start"] := accepts_keys h rfl
+    rcases keys_two hn hkeys with rfl | ⟨v, rfl⟩ | ⟨v, rfl⟩ | ⟨v, w, rfl⟩ | ⟨v, w, rfl⟩
+    · exact (false_of_eq_true_false h rfl).elim
+    · preserved_by_eval
+    · exact (false_of_eq_true_false h rfl).elim
+    · preserved_by_eval
+    · preserved_by_eval
   | [a], h =>
     have hkeys : ∀ kv ∈ kw, kv.1 ∈ ["start"] := accepts_keys h rfl
     rcases keys_one hn hkeys with rfl | ⟨v, rfl⟩
